@@ -112,6 +112,13 @@ func Clean(b []byte) string { return string(ansi.ReplaceAll(b, nil)) }
 // terminal and pipes for stdio (tty=false).  init, if not nil, is applied to
 // the terminal before the start.
 func Start(bin string, args, env []string, tty bool, init *syscall.Termios) (*Proc, error) {
+	return StartWith(bin, args, env, tty, init, false)
+}
+
+// StartWith is Start with one more choice: with stdinNull (and tty) the
+// process has the pty as its controlling terminal, standard output and
+// standard error, but its standard input is /dev/null (cmd </dev/null).
+func StartWith(bin string, args, env []string, tty bool, init *syscall.Termios, stdinNull bool) (*Proc, error) {
 	p := &Proc{done: make(chan struct{})}
 	p.cond = sync.NewCond(&p.mu)
 	cmd := exec.Command(bin, args...)
@@ -132,6 +139,16 @@ func Start(bin string, args, env []string, tty bool, init *syscall.Termios) (*Pr
 		p.Before, _ = pty.Termios() // the mode the program finds the terminal in
 		cmd.Stdin, cmd.Stdout, cmd.Stderr = pty.Slave, pty.Slave, pty.Slave
 		cmd.SysProcAttr = &syscall.SysProcAttr{Setsid: true, Setctty: true, Ctty: 0}
+		if stdinNull {
+			dn, err := os.Open(os.DevNull)
+			if err != nil {
+				pty.Close()
+				return nil, err
+			}
+			defer dn.Close()
+			cmd.Stdin = dn
+			cmd.SysProcAttr.Ctty = 1 // the controlling terminal is what standard output is
+		}
 		rd = pty.Master
 	} else {
 		r, w, err := os.Pipe()
